@@ -15,7 +15,7 @@ func init() {
 func TestC02Live(t *testing.T) {
 	rapid.Check(t, func(rt *rapid.T) {
 		c := LiveCase{
-			Transport: rapid.SampledFrom([]string{"udp", "udp", "tcp"}).Draw(rt, "transport"),
+			Transport: rapid.SampledFrom([]string{"udp", "udp", "tcp", "tcp-http", "tcp-ws"}).Draw(rt, "transport"),
 			Mode:      rapid.SampledFrom([]string{"play", "record"}).Draw(rt, "mode"),
 			Control:   rapid.Bool().Draw(rt, "control"),
 			Media:     rapid.Bool().Draw(rt, "media"),
@@ -27,6 +27,14 @@ func TestC02Live(t *testing.T) {
 		if rapid.IntRange(0, 3).Draw(rt, "slow_udp_publisher") == 0 {
 			// (timeouts of 3 s: the first packet comes 1.3 s after RECORD, later than one check period and below timeout - 1 s)
 			c.Transport, c.Mode, c.Media, c.PreludeMs, c.FirstDelayMs, c.TimeoutMs = "udp", "record", true, 3500, 1300, 3000
+		}
+		if rapid.IntRange(0, 4).Draw(rt, "multicast_reader") == 0 {
+			// a reader with multicast delivery (its reports come from its address and the group's RTCP port)
+			c.Transport, c.Mode, c.PreludeMs, c.FirstDelayMs, c.TimeoutMs = "mcast", "play", 0, 0, 0
+		}
+		if (c.Transport == "udp" || c.Transport == "mcast") && rapid.IntRange(0, 2).Draw(rt, "drop_conn") == 0 {
+			c.DropConn = true
+			c.PreludeMs = 0
 		}
 		st, err := pbt.SafeJ("C02", "live", runLive, c)
 		if st == nil {
@@ -40,6 +48,9 @@ func TestC02Live(t *testing.T) {
 		}
 		if c.PreludeMs > 0 {
 			labels = append(labels, "slow-prelude")
+		}
+		if c.DropConn {
+			labels = append(labels, "control-connection-dropped")
 		}
 		if c.FirstDelayMs > 0 && st.ExpectedAlive {
 			labels = append(labels, "late-first-sign-of-life")
